@@ -2,7 +2,7 @@
 # usage: tools/seedverify.sh <prop> <n>   verifies /tmp/seed-<prop>/out/<n> (patch.diff + demo) in a fresh
 # scratch worktree: builds, baseline tests pass, demo fails with the patch and passes without.
 # On success copies it to /verif/seeded/<prop>-s<n>/ with meta.json.
-prop=$1; n=$2; src=/tmp/seed-$prop/out/$n; wt=/tmp/sv-$prop-$n-$$
+prop=$1; n=$2; out=${3:-out}; tag=s; [ "$out" = out2 ] && tag=t; src=/tmp/seed-$prop/$out/$n; wt=/tmp/sv-$prop-$n-$$
 export GOFLAGS=-mod=mod GOPROXY=off
 [ -f "$src/patch.diff" ] || { echo "no patch in $src"; exit 2; }
 git -C /repo worktree add --detach -q "$wt" HEAD || exit 2
@@ -18,7 +18,7 @@ res_patch=$(go test -vet=off -count=1 -timeout 300s ./seeddemo/$n/... >/tmp/sv-$
 cd /verif
 echo "RESULT $prop $n build=$build baseline=$base demo_clean=$res_clean demo_patched=$res_patch"
 if [ "$build" = 0 ] && [ "$base" = 0 ] && [ "$res_clean" = 0 ] && [ "$res_patch" != 0 ]; then
-  d=/verif/seeded/$prop-s$n; mkdir -p "$d/demo"
+  d=/verif/seeded/$prop-$tag$n; mkdir -p "$d/demo"
   cp "$src/patch.diff" "$d/patch.diff"; cp -r "$wt/seeddemo/$n/." "$d/demo/"; [ -f "$src/README.md" ] && cp "$src/README.md" "$d/README.md"
   cat > "$d/meta.json" <<EOM
 {"property": "$prop", "origin": "independent sub-agent given only the property text and a scratch worktree",
